@@ -32,6 +32,7 @@ from ..flow import Defs, _Sel, origins
 from ..loader import ClassInfo, FunctionInfo
 from ..paths import normal_only
 from ..report import Check
+from .common import nodes_calling
 
 EXPLANATION = (
     "Static necessary conditions of C12 on TOFUDatabase (SQLite's transaction = everything "
@@ -398,6 +399,41 @@ def rule_d6(chk: Check, ci: ClassInfo) -> None:
     chk.ob("D6", "PRIMARY KEY (hostname, port)", okp)
 
 
+def rule_d7(chk: Check, ci: ClassInfo, mutating) -> None:
+    """An import is one store operation for its callers too: a function that
+    calls import_toml must not compose it with another committing store
+    operation (clear / revoke / trust ...) on the same path - that splits the
+    import into two transactions, and a failure of the second leaves the first
+    committed."""
+    chk.rule("D7", "callers of import_toml (CLI) do not combine it with another committing trust-store operation in the same command: replace mode is import_toml's own, single-transaction job")
+    committing = {m.node.name for m in mutating if m.node.name != "import_toml"}
+    n = 0
+    for mi in chk.proj.modules.values():
+        for fi in mi.functions.values():
+            if fi.cls is ci:
+                continue
+            imps = [c for c in calls(fi.node) if method_call(c) and method_call(c)[1] == "import_toml"]
+            if not imps:
+                continue
+            n += 1
+            g = build_cfg(chk.proj, fi)
+            others = nodes_calling(g, lambda c: method_call(c) is not None and method_call(c)[1] in committing and dotted(method_call(c)[0]) == dotted(method_call(imps[0])[0]))
+            impn = nodes_calling(g, lambda c: method_call(c) is not None and method_call(c)[1] == "import_toml")
+            ok = True
+            for o in others:
+                fwd = g.reach([o.id])
+                back = {x.id for x in impn if o.id in g.reach([x.id])}
+                if any(x.id in fwd for x in impn) or back:
+                    ok = False
+                    chk.finding(
+                        "D7", fi.key, f"import-composed-with:{method_call(next(c for c in calls(o.ast) if method_call(c) and method_call(c)[1] in committing))[1]}",
+                        f"`{o.text(60)}` commits on its own and lies on a path with import_toml in the same command: the operation is two transactions, so a failing import (malformed entry, aborted prompt, I/O error) leaves the first one's effect - e.g. an emptied store",
+                        o.where(),
+                    )
+            chk.ob("D7", f"{fi.key}: import is the only committing store operation on its paths", ok, evals=len(others) + 1)
+    chk.ob("D7", "callers of import_toml outside the store examined", True, f"{n} functions", nontrivial=False)
+
+
 def run(chk: Check) -> None:
     ci = chk.proj.cls(DB)
     mutating = rule_d1(chk, ci)
@@ -405,5 +441,6 @@ def run(chk: Check) -> None:
     rule_d4(chk, ci)
     rule_d5(chk, ci)
     rule_d6(chk, ci)
+    rule_d7(chk, ci, mutating)
     chk.trusted = ["CPython ast parser", "engine CFG", "sqlite3: implicit BEGIN before DML, rollback when a connection is closed uncommitted", "tomllib / tomli_w"]
     chk.assumptions = ["process crashes are covered only through SQLite's own atomic commit (trusted)"]
